@@ -148,6 +148,17 @@ class C01Oracle(BaseOracle):
             total = total + val
         el = e.explained_loss
         ml, mo = e.marginal_loss, e.model_loss
+        if w.arith in ("exact", "fraction") and not eff.get("inexact") and T > 0 and _is_exactnum(total):
+            # "exactly when losses are exact numbers": every loss of this world is an exact rational, so the explained
+            # loss reported through the public property has to be THE rational, not a rounded double
+            try:
+                exact_equal = Fraction(total) == Fraction(el)
+            except (TypeError, ValueError):
+                exact_equal = False
+            if not exact_equal:
+                return self.v("sum-vs-explained-loss-exactly",
+                              "all losses are exact rationals: sum(importance)=%r but explained_loss=%r (%s)"
+                              % (total, el, type(el).__name__), explainer=k, cls=ecfg["cls"])
         if not num_equal(total, el, tol):
             return self.v("sum-vs-explained-loss",
                           "sum(importance)=%r explained_loss=%r (explainer %d, T=%d)" % (total, el, k, T),
